@@ -306,7 +306,7 @@ def r19_4(ctx: Ctx) -> None:
 def r19_5(ctx: Ctx) -> None:
     """`l` recognises the first volume of the sets that `c -v` writes."""
     rc = _cli(ctx, "run_create")
-    mv = [c for c in q.calls(rc) if attr_tail(c) == "MultiVolume"]
+    mv = [c for c in q.calls(rc) if attr_tail(c) == "MultiVolume" or any(k.arg == "volume" for k in c.keywords)]  # or a subclass of the package, opened with volume=
     ctx.floor("R19.5", len(mv), 1, "MultiVolume(...) in run_create")
     digits = None
     for c in mv:
@@ -411,7 +411,89 @@ def r19_8(ctx: Ctx) -> None:
     ctx.floor("R19.8", n, 1, "divisions by a stored total in the CLI callback")
 
 
+def r19_9(ctx: Ctx) -> None:
+    """`c -v SIZE` for every size the option's pattern accepts: (a) the object the volumes are written through is not a bare
+    multivolumefile.MultiVolume - its write() calls itself once per volume a block crosses, and the compressor hands over blocks of
+    about 1 MiB (volumes of a kilobyte: RecursionError, a thousand orphan volumes) - but a class of the package whose write() feeds it
+    slices in a loop; (b) a size of zero is refused: the validity test compares the converted number with 0."""
+    f = _cli(ctx, "run_create")
+    opens = [c for c in q.calls(f) if any(k.arg == "volume" for k in c.keywords)]
+    ctx.floor("R19.9", len(opens), 1, "volume writers opened by run_create")
+    for c in opens:
+        cn = dotted(c.func) or ""
+        local = ctx.prog.module("cli").classes.get(cn.split(".")[-1]) if "." not in cn else None
+        ok = False
+        if local is not None:
+            w = ctx.prog.method(local, "write")
+            ok = w is not None and any(isinstance(l, (ast.For, ast.While)) and any(isinstance(x, ast.Call) and attr_tail(x) == "write" and any(isinstance(y, ast.Subscript) and isinstance(y.slice, ast.Slice) for y in ast.walk(x))
+                                                                                  for x in ast.walk(l)) for l in walk(w.node))
+        ctx.check(ok, "R19.9", f, c, "volumes are written through a class that slices each block (no recursion per volume crossed)",
+                  f"`{cn}` is handed to SevenZipFile as it is: MultiVolume.write() recurses once per volume a block crosses, so `c -v 1k` (a size the option accepts) dies with "
+                  "RecursionError as soon as the compressor writes a 1 MiB block, leaving about a thousand orphan volumes", construct="bare MultiVolume for c -v")
+    chk = _cli(ctx, "_check_volumesize_valid")
+    pos = [cmp for cmp in walk(chk.node) if isinstance(cmp, ast.Compare) and len(cmp.ops) == 1 and
+           ((isinstance(cmp.ops[0], (ast.Gt, ast.NotEq)) and isinstance(cmp.comparators[0], ast.Constant) and cmp.comparators[0].value == 0) or
+            (isinstance(cmp.ops[0], ast.GtE) and isinstance(cmp.comparators[0], ast.Constant) and cmp.comparators[0].value == 1))]
+    ctx.check(bool(pos), "R19.9", chk, chk.node, "a volume size of 0 is refused", "_check_volumesize_valid accepts `-v 0` (any digits): MultiVolume then never advances and creation dies in unbounded recursion",
+              construct="volume size 0 accepted")
+
+
+def r19_10(ctx: Ctx) -> None:
+    """`t` mirrors BOTH integrity entry points of the library: 'Everything is Ok' / status 0 stands under the outcome of testzip()
+    (member CRCs) and of test() (packed-stream CRCs) - the library's test() returns False for an archive `t` would otherwise bless."""
+    f = _cli(ctx, "run_test")
+    rets = [r for r in walk(f.node) if isinstance(r, ast.Return) and isinstance(r.value, ast.Constant) and r.value.value == 0]
+    ctx.floor("R19.10", len(rets), 1, "`return 0` in run_test")
+    for r in rets:
+        facts = q.facts_at(f, r)
+        seen = {attr_tail(x) for cd, _ in facts for x in ast.walk(cd) if isinstance(x, ast.Call)}
+        for v in q.deep_nodes(f, r) if False else []:
+            pass
+        # outcomes stored in locals first
+        for cd, _ in facts:
+            for nm in [x for x in ast.walk(cd) if isinstance(x, ast.Name)]:
+                for v in q.assigned_values(f, nm.id):
+                    seen |= {attr_tail(x) for x in ast.walk(v) if isinstance(x, ast.Call)}
+        for ep in ("testzip", "test"):
+            ctx.check(ep in seen, "R19.10", f, r, f"status 0 of `t` depends on SevenZipFile.{ep}()",
+                      f"`t` reports success without consulting SevenZipFile.{ep}(): " + ("an archive whose packed-stream CRC does not match (the library's test() returns False) gets 'Everything is Ok', exit 0"
+                                                                                       if ep == "test" else "member CRCs are not verified"), construct=f"run_test ignores {ep}()")
+
+
+SAME_FILE = ("samefile", "samestat", "sameopenfile")
+
+
+def r19_11(ctx: Ctx) -> None:
+    """`c ARC .` / `a ARC.7z .`: the archive being written lies inside the tree that is walked.  The arm of the walk (_writeall) that
+    stores a regular file it FOUND stands under the false outcome of an identity test between that file and the archive handle
+    (os.path.samestat/samefile/sameopenfile, directly or in a method of the class) - otherwise the half-written archive becomes one of
+    its own members and `x` yields the input tree plus a bogus file."""
+    f = shared.szf(ctx, "_writeall")
+    arms = [n for n in walk(f.node) if isinstance(n, ast.If) and isinstance(n.test, ast.Call) and attr_tail(n.test) == "is_file"]
+    ctx.floor("R19.11", len(arms), 1, "is_file() arm of the walk")
+    for arm in arms:
+        writes = [c for st in arm.body for c in ast.walk(st) if isinstance(c, ast.Call) and attr_tail(c) == "write"]
+        ctx.need(bool(writes), "the is_file() arm of _writeall writes nothing")
+        for wcall in writes:
+            ok = False
+            for cd, pol in q.facts_at(f, wcall):
+                if pol or not isinstance(cd, ast.Call):
+                    continue
+                if attr_tail(cd) in SAME_FILE:
+                    ok = True
+                elif isinstance(cd.func, ast.Attribute) and norm(cd.func.value) == "self":
+                    m = ctx.prog.method(ctx.prog.cls("SevenZipFile", "py7zr"), cd.func.attr)
+                    if m is not None and any(isinstance(x, ast.Call) and attr_tail(x) in SAME_FILE and any("self.fp" in norm(a_) or "self.filename" in norm(a_) for a_ in x.args) for x in walk(m.node)):
+                        ok = True
+            ctx.check(ok, "R19.11", f, wcall, "a file found by the walk is stored only if it is not the archive being written",
+                      "_writeall stores every regular file it finds, also the archive it is writing (`c backup.7z .`): the half-written archive becomes a member of itself, "
+                      "`c` exits 0 and `x` yields the input tree plus a bogus backup.7z", construct="archive packs itself")
+
+
 def run(ctx: Ctx) -> None:
+    r19_11(ctx)
+    r19_10(ctx)
+    r19_9(ctx)
     r19_8(ctx)
     r19_7(ctx)
     r19_5(ctx)
